@@ -1133,6 +1133,7 @@ use syn::{parse2, Item, Result};
 ///
 /// As with `bound(...)`, `dump` can be applied to multiple traits by writing `#[derive_ex(Clone, Default, dump)]`.
 // #[include_doc("../../doc/derive_ex.md", end)]
+#[cfg(not(frozenlib_derive_ex_verif))]
 #[proc_macro_attribute]
 pub fn derive_ex(
     attr: proc_macro::TokenStream,
@@ -1170,6 +1171,7 @@ pub fn derive_ex(
 ///     value: String,
 /// }
 /// ```
+#[cfg(not(frozenlib_derive_ex_verif))]
 #[proc_macro_derive(
     Ex,
     attributes(derive_ex, ord, partial_ord, eq, partial_eq, hash, debug, default)
@@ -1197,4 +1199,29 @@ fn build(attr: TokenStream, item: TokenStream) -> Result<TokenStream> {
     .unwrap_or_else(|e| e.to_compile_error());
 
     Ok(quote!(#item #ts))
+}
+
+/// Verification hooks: the bodies of the two entry points over `proc_macro2` types,
+/// so that the crate can be linked as an ordinary library and expanded in process.
+#[cfg(frozenlib_derive_ex_verif)]
+pub mod verif_hooks {
+    use super::*;
+
+    pub fn expand_attr(attr: TokenStream, item: TokenStream) -> TokenStream {
+        let mut item: TokenStream = item;
+        match build(attr, item.clone()) {
+            Ok(s) => s,
+            Err(e) => {
+                item.extend(e.to_compile_error());
+                item
+            }
+        }
+    }
+
+    pub fn expand_derive(input: TokenStream) -> TokenStream {
+        match item_type::build_derive(input) {
+            Ok(s) => s,
+            Err(e) => e.to_compile_error(),
+        }
+    }
 }
